@@ -132,6 +132,13 @@ func (c *Collector) Params() testscript.Params {
 			tOf.Store(name, env.T())
 			env.Defer(func() { r := get(name); mu.Lock(); r.Defers = append(r.Defers, 0); mu.Unlock() })
 			env.Vars = append(env.Vars, "SETUPVAR="+name)
+			// where the helper lives, for exec lines that name their program by an explicit path
+			for _, d := range filepath.SplitList(env.Getenv("PATH")) {
+				if st, err := os.Stat(filepath.Join(d, "vhelper")); err == nil && !st.IsDir() {
+					env.Vars = append(env.Vars, "VHELPER="+filepath.Join(d, "vhelper"))
+					break
+				}
+			}
 			if sp != nil && sp.SetupFail {
 				return fmt.Errorf("setup refuses %s", name)
 			}
